@@ -56,9 +56,15 @@ def _expansion_in(prog, cfgs, fn, var: T.Optional[str]) -> T.Tuple[bool, str]:
             return False
         sides = [e.left, e.right]
         return any(unparse(x) == v for x in sides) and any(isinstance(x, ast.Constant) and x.value == 2000 for x in sides)
+    assigned_to_var = set()
+    if var:
+        for _st, tg, val in shapes.iter_assigns(fn.node):
+            if unparse(tg) == var:
+                assigned_to_var |= {id(x) for x in ast.walk(val)}
     for n in ast.walk(fn.node):
         if isinstance(n, ast.IfExp):
-            for v in ([var] if var else sorted({x.id for x in ast.walk(n) if isinstance(x, ast.Name)})):
+            cands = sorted({x.id for x in ast.walk(n) if isinstance(x, ast.Name)}) if (not var or id(n) in assigned_to_var) else [var]
+            for v in cands:
                 if small(n.test, v) and plus2000(n.body, v) and unparse(n.orelse) == v:
                     return True, f"`{unparse(n)}`"
                 if isinstance(n.test, ast.UnaryOp) and isinstance(n.test.op, ast.Not) and small(n.test.operand, v) and plus2000(n.orelse, v) and unparse(n.body) == v:
